@@ -292,6 +292,10 @@ pub fn run(ctx: &Ctx, rep: &mut Report) {
             let mut f = |r: &mut Rng| small_name(r, &pool);
             let valid = rr::gen_valid(&mut rng, class, rtype, &mut f);
             check_validate(rep, class, rtype, &valid);
+            // the same octets judged in another class: class-specific formats (IN SRV, IN A/AAAA/WKS,
+            // CH A) apply in that class only, the RFC 1035 name types in every class
+            let other_class = *rng.pick(&[C_IN, C_CH, C_HS, 254u16, 255, 0, 65280]);
+            check_validate(rep, other_class, rtype, &valid);
             let m = rr::mutate(&mut rng, &valid);
             check_validate(rep, class, rtype, &m);
             let m2 = rr::mutate(&mut rng, &m);
@@ -315,6 +319,9 @@ pub fn run(ctx: &Ctx, rep: &mut Report) {
             // as another type
             let (c3, t3) = *rng.pick(rr::GEN_TYPES);
             check_read(rep, &msg, c3, t3, *start, *len as u16);
+            // as the same type in another class
+            let c4 = *rng.pick(&[C_IN, C_CH, C_HS, 254u16, 255, 0, 65280]);
+            check_read(rep, &msg, c4, rtype, *start, *len as u16);
         }
         // boundary: RDATA that ends exactly at the end of the message, zero length, beyond the end
         let end = msg.len();
